@@ -46,7 +46,7 @@ for _nm, _h, _fn, _b in (("c14_outline_add", "h_outline_add", "mmd_outline_add_o
 PROPS["C14"] = {
     "level": "other",
     "explanation": "Escape/unescape are exact inverses: the REAL mmd_print_source_opml (and mmd_print_source_itmz) followed by the REAL print_xml_as_text reproduces every sub-span of every source of <= 2 bytes (thorough: 3) over bytes 1..255, byte for byte, and the escaped form contains no raw XML-reserved/whitespace-control byte (bounded; escape is per byte and unescape looks ahead <= 5 bytes, extension to all lengths is by induction, stated not checked). Span arithmetic, for ALL size_t offsets: mmd_outline_add_opml exports exactly the source between the end of the open heading (start of the block for the Preamble item) and the start of the next heading / end of document as the note, closes exactly the items of level >= the new one and pushes the new heading; mmd_export_header_opml exports exactly the span from the first non-marker child to the end of the last non-marker/newline/indent child as the title. Import side: print_xml_as_text is memory-safe on every 7-byte object whose span is followed by a NUL; xml_extract_named_attribute returns the value of the first attribute matching case-insensitively when no attribute name is more than 1 byte shorter than the requested name.",
-    "slice": "mmd_print_source_opml, mmd_print_source_itmz, print_xml_as_text, mmd_outline_add_opml, mmd_export_header_opml, mmd_export_metadata_opml (every entry, whole key and value, table order; bounded tables), xml_extract_named_attribute (+my_strndup); mmd_engine_convert_opml_to_text / mmd_engine_convert_itmz_to_text (converted text returned, engine holds the outline again)",
+    "slice": "mmd_print_source_opml, mmd_print_source_itmz, print_xml_as_text, mmd_outline_add_opml, mmd_export_header_opml, mmd_export_metadata_opml / mmd_export_metadata_itmz (every entry, whole key and value, table order; bounded tables), xml_extract_named_attribute (+my_strndup); mmd_engine_convert_opml_to_text / mmd_engine_convert_itmz_to_text (converted text returned, engine holds the outline again)",
     "not_reached": "OPML/ITMZ lexer+parser (re2c/lemon) and parse_opml_token_chain (nesting -> heading level); render equality after re-import; xml_extract_attribute and the four xml_scan_* re2c scanners (CBMC's unwinding of their goto-loops never converges: contract stub); itmz outline functions (same code shape as opml, not registered); xml_extract_named_attribute on the full domain FAILS (unit c14_xattr, thorough: genuine heap overflow, see report)",
     "trusted_base": ["cbmc/goto-cc 6.11.0 (MiniSat2)", "lib/ds_sink.c (DString specification as ghost code; refinement proved under C19)", "CBMC built-in strncmp/strcmp/tolower models, lib/libc_models.c byte loops"],
     "assumptions": [NOFAIL, _PS_STUB, _XA_STUB, "source bytes non-NUL", "block/child tokens contiguous inside their parent (C15)"],
@@ -69,3 +69,7 @@ U("c14_metadata_opml_K2", ["C14", "C11"], "h_meta_opml", ["C14/meta_opml.c", "C1
   bounds={"metadata entries<=": 2, "key/value length<=": 2, "unwind": 50}, cbmc_flags=["--unwind", "50", "--unwinding-assertions"], functions=["mmd_export_metadata_opml"],
   callees={"mmd_print_source_opml": "recording stub (contract; the escaper: c14_roundtrip_*)", "d_string_append / d_string_append_c_array": "recording stubs (DString: C19)", "strlen": "CBMC built-in"},
   native=None, min_obligations=10, timeout=300, cost=10, assumptions=[_PS_STUB])
+U("c14_metadata_itmz_K2", ["C14", "C11"], "h_meta_itmz", ["C14/meta_itmz.c", "C14/itmz_tu.c"], [], plain=True, lib=(), kind="bounded",
+  bounds={"metadata entries<=": 2, "key/value length<=": 2, "unwind": 50}, cbmc_flags=["--unwind", "50", "--unwinding-assertions"], functions=["mmd_export_metadata_itmz"],
+  callees={"mmd_print_source_itmz": "recording stub (contract; the escaper: c14_roundtrip_itmz)", "print_uuid_itmz": "recording stub (uuid_new: trusted base)", "d_string_append / d_string_append_c_array": "recording stubs (DString: C19)", "strlen": "CBMC built-in"},
+  native=None, min_obligations=10, timeout=300, cost=10, assumptions=[_PS_STUB.replace("opml", "itmz")])
